@@ -57,7 +57,8 @@ def gen_members(rng, benign):
             name = rng.choice(['f%d' % i, 'd0/f%d' % i, '../escaped%d' % i, '../../esc%d' % i, '/tmp/c18_abs_%d' % i, 'a/../../e%d' % i,
                                'd0/../../e%d' % i, './ok%d' % i, '../{DEST}/back%d' % i, 'x/./y/../z%d' % i, '..', 'd0//f%d' % i] +
                               [l + '/via%d' % i for l in links] + [l + '/../up%d' % i for l in links] +
-                              [l + '/decoy.txt' for l in links])
+                              [l + '/decoy.txt' for l in links] +
+                              ['../decoy.txt', '../outside_dir/keep.txt', '../../grand.txt', '{PARENT}/decoy.txt'])
             link = ''
             if kind in ('sym', 'hard'):
                 # hard-link targets are resolved by tarfile from the archive root, symbolic ones from the link's directory:
@@ -77,7 +78,7 @@ def gen_members(rng, benign):
 
 def gen_case(rng):
     benign = rng.random() < 0.4
-    return {'members': gen_members(rng, benign), 'benign': benign, 'gz': rng.random() < 0.5}
+    return {'members': gen_members(rng, benign), 'benign': benign, 'gz': rng.random() < 0.5, 'ro_decoys': rng.random() < 0.5}
 
 
 def cases(rng, tier):
@@ -101,6 +102,13 @@ def cases(rng, tier):
         out.append({'members': [{'kind': 'sym', 'name': 'd0/here', 'linkname': '.', 'content': 1},
                                 {'kind': 'sym', 'name': 'd0/esc', 'linkname': 'here/../..', 'content': 2},
                                 {'kind': 'file', 'name': 'd0/esc/' + tail, 'linkname': '', 'content': 3}], 'benign': False, 'gz': False})
+    # members NAMED like files that exist outside (relative and absolute names), writable or read-only: refused or extracted
+    # inside, the outside file must still be there, unchanged
+    for name in ('../decoy.txt', '../outside_dir/keep.txt', '../../grand.txt', 'd0/../../decoy.txt', '{PARENT}/decoy.txt',
+                 '{PARENT}/outside_dir/keep.txt'):
+        for ro in (False, True):
+            out.append({'members': [{'kind': 'file', 'name': name, 'linkname': '', 'content': 1}], 'benign': False, 'gz': ro,
+                        'ro_decoys': ro})
     # a link to a file that exists outside, then a regular member of the same name writing through it; every depth of
     # the link's own directory, because a filter that resolves hard-link targets from the wrong base is depth-sensitive
     for target in ('../decoy.txt', '../outside_dir/keep.txt', '../../grand.txt'):
@@ -111,11 +119,11 @@ def cases(rng, tier):
     return out
 
 
-def build_archive(case, path, dest_name):
+def build_archive(case, path, dest_name, parent_abs=''):
     mode = 'w:gz' if case['gz'] else 'w'
     with tarfile.open(path, mode, format=tarfile.GNU_FORMAT) as tf:
         for m in case['members']:
-            ti = tarfile.TarInfo(m['name'].replace('{DEST}', dest_name))
+            ti = tarfile.TarInfo(m['name'].replace('{DEST}', dest_name).replace('{PARENT}', parent_abs))
             ti.mtime = 0
             ti.mode = 0o644
             if m['kind'] == 'file':
@@ -180,8 +188,10 @@ def run_real(case):
             os.makedirs(os.path.dirname(p), exist_ok=True)
             with open(p, 'w') as f:
                 f.write('decoy')
+            if case.get('ro_decoys'):
+                os.chmod(p, 0o444)        # files their owner cannot write: nothing may remove or replace them either
         arch = os.path.join(base, 'a.tar.gz')
-        build_archive(case, arch, 'install')
+        build_archive(case, arch, 'install', sandbox)
         top = os.path.join(base, 'sandbox')
         before = snapshot(top, exclude=dest)
         abs_before = {p: os.path.exists(p) for p in ['/tmp/c18_abs_%d' % i for i in range(8)]}
@@ -239,7 +249,8 @@ def run_impl(case):
 
 def to_model(case):
     r = run_real(case)
-    return [{'dest': r['dest'], 'members': [dict(m, name=m['name'].replace('{DEST}', 'install'),
+    parent = '/' + '/'.join(r['dest'][:-1])
+    return [{'dest': r['dest'], 'members': [dict(m, name=m['name'].replace('{DEST}', 'install').replace('{PARENT}', parent),
                                                  linkname=m['linkname'].replace('{DEST}', 'install')) for m in case['members']]}]
 
 
